@@ -15,6 +15,11 @@ use wayfind::{Constraint, Router};
 mod cons;
 use cons::{DupU8, Even, Lower, Lower2, NoA};
 
+/// The name constraint of the OCI example, compiled from /repo's current source.
+#[path = "/repo/examples/oci/src/constraints/name.rs"]
+mod oci_name;
+use oci_name::NameConstraint;
+
 fn hex(b: &[u8]) -> String {
     let mut s = String::with_capacity(1 + 2 * b.len());
     s.push('x');
@@ -193,6 +198,9 @@ fn main() {
     let stdout = std::io::stdout();
     let mut out = std::io::BufWriter::new(stdout.lock());
     let mut routers: HashMap<String, Router<u32>> = HashMap::new();
+    // OCI example: one router per HTTP method, data = index into the handler table
+    let mut oci: HashMap<String, Router<u32>> = HashMap::new();
+    let mut oci_handlers: Vec<String> = Vec::new();
 
     for line in stdin.lock().lines() {
         let line = line.unwrap();
@@ -383,6 +391,54 @@ fn main() {
             "builtin" => {
                 let name = String::from_utf8(unhex(t[1])).unwrap();
                 writeln!(out, "{}", builtin_line(&name, &unhex(t[2]))).unwrap();
+            }
+            // ocinew <path of routes.tsv>: build the example's routers from the regenerated table,
+            // the way AppRouter::new / constraint / route do
+            "ocinew" => {
+                oci.clear();
+                oci_handlers.clear();
+                for m in ["GET", "POST", "PUT", "DELETE", "HEAD", "OPTIONS", "CONNECT", "PATCH", "TRACE"] {
+                    let mut r: Router<u32> = Router::new();
+                    r.constraint::<NameConstraint>().unwrap();
+                    oci.insert(m.to_owned(), r);
+                }
+                let table = std::fs::read_to_string(t[1]).expect("routes table");
+                for l in table.lines() {
+                    let f: Vec<&str> = l.split('\t').collect();
+                    let idx = u32::try_from(oci_handlers.len()).unwrap();
+                    oci_handlers.push(f[2].to_owned());
+                    oci.entry(f[0].to_owned())
+                        .or_insert_with(|| {
+                            let mut r: Router<u32> = Router::new();
+                            r.constraint::<NameConstraint>().unwrap();
+                            r
+                        })
+                        .insert(f[1], idx)
+                        .unwrap();
+                }
+                writeln!(out, "# ocinew").unwrap();
+            }
+            "oci" => {
+                let method = String::from_utf8(unhex(t[1])).unwrap();
+                let url = String::from_utf8(unhex(t[2])).unwrap();
+                let res = oci.get(&method).and_then(|r| {
+                    r.search(&url).map(|m| {
+                        let mut s = format!(
+                            "S {} {}",
+                            hex(oci_handlers[*m.data as usize].as_bytes()),
+                            m.parameters.len()
+                        );
+                        for (k, v) in &m.parameters {
+                            write!(s, " {} {}", hex(k.as_bytes()), hex(v.as_bytes())).unwrap();
+                        }
+                        s
+                    })
+                });
+                writeln!(out, "oci {} {} {}", t[1], t[2], res.unwrap_or_else(|| "N".to_owned())).unwrap();
+            }
+            "ociname" => {
+                let v = String::from_utf8(unhex(t[1])).unwrap();
+                writeln!(out, "ociname {} {}", t[1], u8::from(NameConstraint::check(&v))).unwrap();
             }
             "end" => {
                 routers.clear();
